@@ -114,7 +114,33 @@ def run(ctx, out, tier):
     else:
         out.viol("C04.exit", "C04.exit|sites", "-", "process::exit / abort is called from %s; expected only the report function" % [b.id for b, t in ex])
         out.inst("C04.exit", 0, 1)
-    return meta(len(S), n_auto, n_tab, by_class)
+    m = meta(len(S), n_auto, n_tab, by_class)
+    if tier == "thorough":
+        m["release_profile"] = release_profile_census(ctx, S)
+    return m
+
+
+def release_profile_census(ctx, debug_sites):
+    """Second extraction with the shipped profile's flags (overflow checks and debug assertions
+    off): which arithmetic sites exist only in debug builds, and that no other site appears."""
+    import subprocess, tempfile, shutil
+    from engine.core import Ctx
+    base = tempfile.mkdtemp(prefix="bwdist-", dir="/var/tmp")
+    try:
+        env = dict(os.environ)
+        env["BWFACTS_EXTRA_ARGS"] = "-Coverflow-checks=off -Cdebug-assertions=off"
+        env["BWFACTS_NONCE"] = "dist"
+        r = subprocess.run(["/verif/extract.sh", os.environ.get("BW_REPO", "/repo"), os.path.join(base, "facts")], env=env, capture_output=True, text=True)
+        if r.returncode != 0:
+            return {"error": "extraction under release flags failed"}
+        c2 = Ctx(os.path.join(base, "facts"))
+        S2 = census.sites(c2, c2.reachable_bodies())
+        kinds = lambda S: {k: sum(1 for s in S if s["kind"].split("-")[0].split(":")[0] == k) for k in sorted({s["kind"].split("-")[0].split(":")[0] for s in S})}
+        k1 = {s["key"] for s in debug_sites if not s["kind"].startswith("overflow")}
+        k2 = {s["key"] for s in S2 if not s["kind"].startswith("overflow")}
+        return {"debug_profile": kinds(debug_sites), "release_flags": kinds(S2), "non_arithmetic_sites_only_in_release": sorted(k2 - k1), "non_arithmetic_sites_only_in_debug": sorted(k1 - k2)}
+    finally:
+        shutil.rmtree(base, ignore_errors=True)
 
 
 def meta(total=0, auto=0, tab=0, by_class=None):
